@@ -2588,8 +2588,8 @@ def run_probes(ctx, rep):
     rep.case('symbols:[]', nontrivial=False)
 
 
-N_MAIN = {'quick': 4, 'thorough': 12}       # workers of the models / linkers / name-pool stages
-N_MIX = {'quick': 6, 'thorough': 4}         # workers of the mixin x entry point x flag-form stage
+N_MAIN = {'quick': 4, 'thorough': 8}        # workers of the models / linkers / name-pool stages
+N_MIX = {'quick': 6, 'thorough': 8}         # workers of the mixin x entry point x flag-form stage
 N_PARTS = {t: N_MAIN[t] + N_MIX[t] for t in N_MAIN}
 
 
